@@ -63,8 +63,9 @@ QVector<ObjectType> buildTypes()
             F_CUSTOM(T, "parentThread", "str", SETL({ if (o.thread().isEmpty()) o.setThread("t"); o.setParentThread(plain ? v.plain : v.str); }), GETL(return o.parentThread())),
             F_ENUM(T, "state", QXmppMessage::State, 0, 6, setState, state),
             F_DT(T, "stamp", setStamp, stamp),
-            F_BOOL(T, "receiptRequested", setReceiptRequested, isReceiptRequested),
-            F_STR(T, "receiptId", setReceiptId, receiptId),
+            // XEP-0184: a receipt (received/@id) and a receipt request exclude each other (documented in toXml)
+            F_CUSTOM(T, "receipt", "bool|str", SETL(if (v.idx % 2) { o.setReceiptRequested(true); } else { o.setReceiptId(plain ? v.plain : v.str); }),
+                     GETL(return qxvfields::b2s(o.isReceiptRequested()) + QChar('|') + o.receiptId())),
             F_BOOL(T, "attention", setAttentionRequested, isAttentionRequested),
             F_STR(T, "mucInvitationJid", setMucInvitationJid, mucInvitationJid),
             F_CUSTOM(T, "mucInvitationPassword", "str", SETL({ if (o.mucInvitationJid().isEmpty()) o.setMucInvitationJid("room@muc"); o.setMucInvitationPassword(plain ? v.plain : v.str); }), GETL(return o.mucInvitationPassword())),
@@ -81,12 +82,11 @@ QVector<ObjectType> buildTypes()
             F_STR(T, "mixUserJid", setMixUserJid, mixUserJid), F_STR(T, "mixUserNick", setMixUserNick, mixUserNick),
             F_ENUM(T, "encryptionMethod", QXmpp::EncryptionMethod, 2, 4, setEncryptionMethod, encryptionMethod),
             F_CUSTOM(T, "encryptionName", "str", SETL({ if (o.encryptionMethodNs().isEmpty()) o.setEncryptionMethodNs("urn:example:enc"); o.setEncryptionName(plain ? v.plain : v.str); }), GETL(return o.encryptionName())),
-            F_STR(T, "spoilerHint", setSpoilerHint, spoilerHint),
-            F_BOOL(T, "isSpoiler", setIsSpoiler, isSpoiler),
+            F_CUSTOM(T, "spoiler", "bool+str", SETL(o.setIsSpoiler(true); if (v.idx % 3) { o.setSpoilerHint(plain ? v.plain : v.str); }),
+                     GETL(return qxvfields::b2s(o.isSpoiler()) + QChar('|') + o.spoilerHint())),
             F_STR(T, "outOfBandUrl", setOutOfBandUrl, outOfBandUrl),
-            F_STR(T, "e2eeFallbackBody", setE2eeFallbackBody, e2eeFallbackBody),
             F_CUSTOM(T, "reply", "str", SETL({ QXmpp::Reply rp; rp.to = plain ? v.plain : v.str; rp.id = plain ? v.plain : v.str; o.setReply(rp); }), GETL({ auto rp = o.reply(); return rp ? rp->to + QChar('|') + rp->id : QStringLiteral("(none)"); })),
-            F_CUSTOM(T, "reaction", "str", SETL({ QXmppMessageReaction re; re.setMessageId(plain ? v.plain : v.str); re.setEmojis({ plain ? v.plain : v.str, QStringLiteral("second") }); o.setReaction(re); }), GETL({ auto re = o.reaction(); return re ? re->messageId() + QChar('|') + QStringList(re->emojis().toList()).join(QChar(0x1f)) : QStringLiteral("(none)"); })),
+            F_CUSTOM(T, "reaction", "str", SETL({ QXmppMessageReaction re; re.setMessageId(plain ? v.plain : v.str); re.setEmojis({ plain ? v.plain : v.str, QStringLiteral("second") }); o.setReaction(re); }), GETL({ auto re = o.reaction(); if (!re) return QStringLiteral("(none)"); auto em = QStringList(re->emojis().toList()); em.sort(); return re->messageId() + QChar('|') + em.join(QChar(0x1f)); })),
             F_CUSTOM(T, "mixInvitation", "str", SETL({ QXmppMixInvitation mi; mi.setInviterJid(plain ? v.plain : v.str); mi.setInviteeJid("b@x"); mi.setChannelJid("c@x"); mi.setToken(plain ? v.plain : v.str); o.setMixInvitation(mi); }), GETL({ auto mi = o.mixInvitation(); return mi ? mi->inviterJid() + '|' + mi->inviteeJid() + '|' + mi->channelJid() + '|' + mi->token() : QStringLiteral("(none)"); })),
             F_CUSTOM(T, "fallbackMarkers", "str", SETL({ QXmppFallback fb(plain ? v.plain : v.str, { QXmppFallback::Reference { QXmppFallback::Body, QXmppFallback::Range { uint32_t(v.idx), std::numeric_limits<uint32_t>::max() } } }); o.setFallbackMarkers({ fb }); }), GETL({ QStringList l; for (const auto &fb : o.fallbackMarkers()) { l << fb.forNamespace(); for (const auto &rf : fb.references()) l << QString::number(int(rf.element)) + '|' + (rf.range ? QString::number(rf.range->start) + '-' + QString::number(rf.range->end) : QStringLiteral("-")); } return l.join(QChar(0x1f)); })),
         });
@@ -99,16 +99,17 @@ QVector<ObjectType> buildTypes()
             F_ENUM(T, "availableStatusType", QXmppPresence::AvailableStatusType, 0, 5, setAvailableStatusType, availableStatusType),
             F_INT(T, "priority", qint8, setPriority, priority),
             F_STR(T, "statusText", setStatusText, statusText),
-            F_CUSTOM(T, "mucPassword", "str", SETL({ o.setMucSupported(true); o.setMucPassword(plain ? v.plain : v.str); }), GETL(return o.mucPassword())),
-            F_BOOL(T, "mucSupported", setMucSupported, isMucSupported),
+            // the password travels inside <x xmlns=muc/>, which is written for MUC-supporting presences only
+            F_CUSTOM(T, "muc", "bool+str", SETL(o.setMucSupported(true); if (v.idx % 2) { o.setMucPassword(plain ? v.plain : v.str); }), GETL(return qxvfields::b2s(o.isMucSupported()) + QChar('|') + o.mucPassword())),
             F_CUSTOM(T, "mucStatusCodes", "intlist", SETL({ o.setMucStatusCodes({ 100 + v.idx, 110, 999 }); }), GETL({ QStringList l; for (int c : o.mucStatusCodes()) l << QString::number(c); return l.join(','); })),
             F_CUSTOM(T, "mucItem", "str", SETL({ QXmppMucItem it; it.setJid(plain ? v.plain : v.str); it.setNick(plain ? v.plain : v.str); it.setReason(plain ? v.plain : v.str); it.setActor(plain ? v.plain : v.str);
                                             it.setAffiliation(QXmppMucItem::Affiliation(v.idx % 6)); it.setRole(QXmppMucItem::Role(v.idx % 5)); o.setMucItem(it); }), GETL({ auto it = o.mucItem(); return it.jid() + '|' + it.nick() + '|' + it.reason() + '|' + it.actor() + '|' + QString::number(it.affiliation()) + '|' + QString::number(it.role()); })),
-            F_CUSTOM(T, "photoHash", "bytes", SETL({ o.setVCardUpdateType(QXmppPresence::VCardUpdateValidPhoto); o.setPhotoHash(v.str.toUtf8() + QByteArray(1, char(v.idx))); }), GETL(return qxvfields::bytes2s(o.photoHash()))),
-            F_ENUM(T, "vCardUpdateType", QXmppPresence::VCardUpdateType, 0, 4, setVCardUpdateType, vCardUpdateType),
-            F_STR(T, "capabilityHash", setCapabilityHash, capabilityHash),
-            F_STR(T, "capabilityNode", setCapabilityNode, capabilityNode),
-            F_BYTES(T, "capabilityVer", setCapabilityVer, capabilityVer),
+            // XEP-0153: the hash belongs to VCardUpdateValidPhoto only
+            F_CUSTOM(T, "vCardUpdate", "enum+bytes", SETL(auto t = QXmppPresence::VCardUpdateType(v.idx % 4); o.setVCardUpdateType(t); if (t == QXmppPresence::VCardUpdateValidPhoto) { o.setPhotoHash(v.str.toUtf8() + QByteArray(1, char(1 + v.idx))); }),
+                     GETL(return QString::number(o.vCardUpdateType()) + QChar('|') + qxvfields::bytes2s(o.photoHash()))),
+            // XEP-0115: <c/> is written when hash, node and ver are all present
+            F_CUSTOM(T, "capability", "str+bytes", SETL(o.setCapabilityHash(plain ? v.plain : v.str); o.setCapabilityNode(plain ? v.plain : v.str); o.setCapabilityVer(v.str.toUtf8() + QByteArray(1, char(1 + v.idx)) + QByteArray(v.idx % 3, '\0'))),
+                     GETL(return o.capabilityHash() + QChar('|') + o.capabilityNode() + QChar('|') + qxvfields::bytes2s(o.capabilityVer()))),
             F_BOOL(T, "isPreparingMujiSession", setIsPreparingMujiSession, isPreparingMujiSession),
             F_STR(T, "oldJid", setOldJid, oldJid),
             F_DT(T, "lastUserInteraction", setLastUserInteraction, lastUserInteraction),
@@ -131,9 +132,9 @@ QVector<ObjectType> buildTypes()
             F_ENUM(T, "condition", QXmppStanza::Error::Condition, 0, 21, setCondition, condition),
             F_STR(T, "text", setText, text), F_STR(T, "by", setBy, by),
             F_CUSTOM(T, "redirectionUri", "str", SETL({ o.setCondition(QXmppStanza::Error::Redirect); o.setRedirectionUri(plain ? v.plain : v.str); }), GETL(return o.redirectionUri())),
-            F_BOOL(T, "fileTooLarge", setFileTooLarge, fileTooLarge),
-            F_CUSTOM(T, "maxFileSize", "int:qint64", SETL({ o.setFileTooLarge(true); auto b = qxvfields::intBounds<qint64>(); o.setMaxFileSize(b[v.idx % b.size()]); }), GETL(return QString::number(o.maxFileSize()))),
-            F_DT(T, "retryDate", setRetryDate, retryDate),
+            // XEP-0363: either <file-too-large/> with the maximum size or <retry/> with a date
+            F_CUSTOM(T, "upload", "bool+int:qint64|datetime", SETL(if (v.idx % 2) { o.setFileTooLarge(true); auto b = qxvfields::intBounds<qint64>(); o.setMaxFileSize(qMax<qint64>(0, b[v.idx % b.size()])); } else { o.setRetryDate(qxvfields::dateTimes()[v.idx % qxvfields::dateTimes().size()]); }),
+                     GETL(return qxvfields::b2s(o.fileTooLarge()) + QChar('|') + QString::number(o.maxFileSize()) + QChar('|') + qxvfields::dt2s(o.retryDate()))),
         }, [](T &o) { o.setType(QXmppStanza::Error::Cancel); o.setCondition(QXmppStanza::Error::BadRequest); });
     }
     {
@@ -173,12 +174,20 @@ QVector<ObjectType> buildTypes()
     }
     {
         using T = QXmppDiscoveryIq;
-        r << makeType<T>("QXmppDiscoveryIq", {
-            F_STR(T, "id", setId, id), F_ENUM(T, "queryType", QXmppDiscoveryIq::QueryType, 0, 2, setQueryType, queryType), F_STR(T, "queryNode", setQueryNode, queryNode),
-            F_CUSTOM(T, "features", "strlist", SETL({ o.setQueryType(QXmppDiscoveryIq::InfoQuery); o.setFeatures({ plain ? v.plain : v.str, QStringLiteral("urn:second") }); }), GETL(return qxvfields::sl2s(o.features()))),
-            F_CUSTOM(T, "identities", "str", SETL({ o.setQueryType(QXmppDiscoveryIq::InfoQuery); QXmppDiscoveryIq::Identity i; i.setCategory(plain ? v.plain : v.str); i.setType(plain ? v.plain : v.str); i.setName(plain ? v.plain : v.str); i.setLanguage("en"); o.setIdentities({ i }); }), GETL({ QStringList l; for (const auto &i : o.identities()) l << i.category() + '|' + i.type() + '|' + i.name() + '|' + i.language(); return l.join(QChar(0x1f)); })),
-            F_CUSTOM(T, "items", "str", SETL({ o.setQueryType(QXmppDiscoveryIq::ItemsQuery); QXmppDiscoveryIq::Item i; i.setJid(plain ? v.plain : v.str); i.setName(plain ? v.plain : v.str); i.setNode(plain ? v.plain : v.str); o.setItems({ i }); }), GETL({ QStringList l; for (const auto &i : o.items()) l << i.jid() + '|' + i.name() + '|' + i.node(); return l.join(QChar(0x1f)); })),
-        });
+        // which children are written depends on the query type (info: identities, features, form; items: items)
+        r << makeType<T>("QXmppDiscoveryIq[info]", {
+            F_STR(T, "id", setId, id), F_STR(T, "queryNode", setQueryNode, queryNode),
+            F_CUSTOM(T, "features", "strlist", SETL(o.setFeatures({ plain ? v.plain : v.str, QStringLiteral("urn:second") })), GETL(return qxvfields::sl2s(o.features()))),
+            F_CUSTOM(T, "identities", "str", SETL({ QXmppDiscoveryIq::Identity i; i.setCategory(plain ? v.plain : v.str); i.setType(plain ? v.plain : v.str); i.setName(plain ? v.plain : v.str); i.setLanguage("en"); o.setIdentities({ i }); }),
+                     GETL({ QStringList l; for (const auto &i : o.identities()) l << i.category() + '|' + i.type() + '|' + i.name() + '|' + i.language(); return l.join(QChar(0x1f)); })),
+        }, [](T &o) { o.setQueryType(QXmppDiscoveryIq::InfoQuery); });
+        r << makeType<T>("QXmppDiscoveryIq[items]", {
+            F_STR(T, "id", setId, id), F_STR(T, "queryNode", setQueryNode, queryNode),
+            F_CUSTOM(T, "items", "str", SETL({ QXmppDiscoveryIq::Item i; i.setJid(plain ? v.plain : v.str); i.setName(plain ? v.plain : v.str); i.setNode(plain ? v.plain : v.str); o.setItems({ i }); }),
+                     GETL({ QStringList l; for (const auto &i : o.items()) l << i.jid() + '|' + i.name() + '|' + i.node(); return l.join(QChar(0x1f)); })),
+        }, [](T &o) { o.setQueryType(QXmppDiscoveryIq::ItemsQuery); });
+        // a default-constructed IQ (no setQueryType()) must serialize to something it parses back
+        r << makeType<T>("QXmppDiscoveryIq[default-constructed]", { F_STR(T, "id", setId, id), F_STR(T, "queryNode", setQueryNode, queryNode) });
     }
     {
         using T = QXmppEntityTimeIq;
@@ -221,7 +230,7 @@ QVector<ObjectType> buildTypes()
             F_STR(T, "nickName", setNickName, nickName), F_STR(T, "url", setUrl, url),
             F_CUSTOM(T, "photo", "bytes", SETL({ o.setPhoto(v.str.toUtf8() + QByteArray(1, char(v.idx)) + QByteArray(2, '\0')); o.setPhotoType("image/png"); }), GETL(return qxvfields::bytes2s(o.photo()) + '|' + o.photoType())),
             F_CUSTOM(T, "addresses", "str", SETL({ QXmppVCardAddress a; a.setCountry(plain ? v.plain : v.str); a.setLocality(plain ? v.plain : v.str); a.setPostcode(plain ? v.plain : v.str); a.setRegion(plain ? v.plain : v.str); a.setStreet(plain ? v.plain : v.str);
-                                              a.setType(QXmppVCardAddress::Type(1 << (v.idx % 5))); o.setAddresses({ a }); }), GETL({ QStringList l; for (const auto &a : o.addresses()) l << a.country() + '|' + a.locality() + '|' + a.postcode() + '|' + a.region() + '|' + a.street() + '|' + QString::number(int(a.type())); return l.join(QChar(0x1f)); })),
+                                              a.setType(QXmppVCardAddress::Type(1 << (v.idx % 4))); o.setAddresses({ a }); }), GETL({ QStringList l; for (const auto &a : o.addresses()) l << a.country() + '|' + a.locality() + '|' + a.postcode() + '|' + a.region() + '|' + a.street() + '|' + QString::number(int(a.type())); return l.join(QChar(0x1f)); })),
             F_CUSTOM(T, "emails", "str", SETL({ QXmppVCardEmail e; e.setAddress(plain ? v.plain : v.str); e.setType(QXmppVCardEmail::Type(1 << (v.idx % 5))); o.setEmails({ e }); }), GETL({ QStringList l; for (const auto &e : o.emails()) l << e.address() + '|' + QString::number(int(e.type())); return l.join(QChar(0x1f)); })),
             F_CUSTOM(T, "phones", "str", SETL({ QXmppVCardPhone p; p.setNumber(plain ? v.plain : v.str); p.setType(QXmppVCardPhone::Type(1 << (v.idx % 13))); o.setPhones({ p }); }), GETL({ QStringList l; for (const auto &p : o.phones()) l << p.number() + '|' + QString::number(int(p.type())); return l.join(QChar(0x1f)); })),
             F_CUSTOM(T, "organization", "str", SETL({ QXmppVCardOrganization g; g.setOrganization(plain ? v.plain : v.str); g.setUnit(plain ? v.plain : v.str); g.setTitle(plain ? v.plain : v.str); g.setRole(plain ? v.plain : v.str); o.setOrganization(g); }), GETL({ auto g = o.organization(); return g.organization() + '|' + g.unit() + '|' + g.title() + '|' + g.role(); })),
@@ -246,11 +255,15 @@ QVector<ObjectType> buildTypes()
     }
     {
         using T = QXmppMixIq;
-        r << makeType<T>("QXmppMixIq", {
-            F_STR(T, "id", setId, id), F_ENUM(T, "actionType", QXmppMixIq::Type, 1, 8, setActionType, actionType),
-            F_STR(T, "participantId", setParticipantId, participantId), F_STR(T, "channelId", setChannelId, channelId), F_STR(T, "channelJid", setChannelJid, channelJid), F_STR(T, "nick", setNick, nick),
-            F_CUSTOM(T, "subscriptions", "flags", SETL({ o.setSubscriptions(QXmppMixConfigItem::Nodes(1 << (v.idx % 8))); }), GETL(return QString::number(int(o.subscriptions())))),
+        // XEP-0405/0369: the PAM wrapper carries the channel JID in requests, the participant id comes back in results
+        r << makeType<T>("QXmppMixIq[client-join,set]", {
+            F_STR(T, "id", setId, id), F_STR(T, "channelJid", setChannelJid, channelJid), F_STR(T, "channelId", setChannelId, channelId), F_STR(T, "nick", setNick, nick),
+            F_CUSTOM(T, "subscriptions", "flags", SETL(o.setSubscriptions(QXmppMixConfigItem::Nodes(1 << (v.idx % 8)))), GETL(return QString::number(int(o.subscriptions())))),
         }, [](T &o) { o.setType(QXmppIq::Set); o.setActionType(QXmppMixIq::ClientJoin); });
+        r << makeType<T>("QXmppMixIq[join,result]", {
+            F_STR(T, "id", setId, id), F_STR(T, "participantId", setParticipantId, participantId), F_STR(T, "channelId", setChannelId, channelId), F_STR(T, "nick", setNick, nick),
+            F_ENUM(T, "actionType", QXmppMixIq::Type, 3, 2, setActionType, actionType),
+        }, [](T &o) { o.setType(QXmppIq::Result); o.setActionType(QXmppMixIq::Join); });
     }
     {
         using T = QXmppMamQueryIq;
@@ -299,7 +312,9 @@ QVector<ObjectType> buildTypes()
     {
         using T = QXmppJinglePayloadType;
         r << makeType<T>("QXmppJinglePayloadType", {
-            F_INT(T, "id", quint8, setId, id), F_INT(T, "channels", quint8, setChannels, channels),
+            F_INT(T, "id", quint8, setId, id),
+            // 0 channels is not a value of the field (1 is the default and is not written)
+            F_CUSTOM(T, "channels", "int:quint8", SETL(auto b = qxvfields::intBounds<quint8>(); o.setChannels(qMax<quint8>(1, b[v.idx % b.size()]))), GETL(return QString::number(o.channels()))),
             F_CUSTOM(T, "clockrate", "int:uint", SETL({ static const unsigned t[] = { 0, 1, 8000, 48000, 90000, std::numeric_limits<unsigned>::max() }; o.setClockrate(t[v.idx % 6]); }), GETL(return QString::number(o.clockrate()))),
             F_CUSTOM(T, "maxptime", "int:uint", SETL({ static const unsigned t[] = { 0, 1, 20, 65536, std::numeric_limits<unsigned>::max() }; o.setMaxptime(t[v.idx % 5]); }), GETL(return QString::number(o.maxptime()))),
             F_CUSTOM(T, "ptime", "int:uint", SETL({ static const unsigned t[] = { 0, 1, 20, 65536, std::numeric_limits<unsigned>::max() }; o.setPtime(t[v.idx % 5]); }), GETL(return QString::number(o.ptime()))),
@@ -330,7 +345,7 @@ QVector<ObjectType> buildTypes()
             F_STR(T, "mujiGroupChatJid", setMujiGroupChatJid, mujiGroupChatJid),
             F_CUSTOM(T, "reason", "enum+str", SETL({ o.reason().setType(QXmppJingleReason::Type(1 + v.idx % 17)); o.reason().setText(plain ? v.plain : v.str); }), GETL(return QString::number(o.reason().type()) + '|' + o.reason().text())),
             F_CUSTOM(T, "content", "str", SETL({ QXmppJingleIq::Content c; c.setCreator(plain ? v.plain : v.str); c.setName(plain ? v.plain : v.str); c.setSenders(plain ? v.plain : v.str);
-                                            c.setTransportUser(plain ? v.plain : v.str); c.setTransportPassword(plain ? v.plain : v.str);
+                                            { QXmppJingleCandidate cand; cand.setId("c1"); cand.setHost(QHostAddress(QStringLiteral("192.0.2.7"))); cand.setPort(3478); cand.setProtocol("udp"); cand.setType(QXmppJingleCandidate::HostType); c.addTransportCandidate(cand); } c.setTransportUser(plain ? v.plain : v.str); c.setTransportPassword(plain ? v.plain : v.str);
                                             QXmppJingleDescription d; d.setMedia(plain ? v.plain : v.str); d.setSsrc(qxvfields::intBounds<quint32>()[v.idx % 10]); d.setType("urn:xmpp:jingle:apps:rtp:1"); c.setDescription(d); o.setContents({ c }); }), GETL({ QStringList l; for (const auto &c : o.contents()) l << c.creator() + '|' + c.name() + '|' + c.senders() + '|' + c.transportUser() + '|' + c.transportPassword() + '|' + c.description().media() + '|' + QString::number(c.description().ssrc()); return l.join(QChar(0x1f)); })),
         }, [](T &o) { o.setType(QXmppIq::Set); });
     }
@@ -366,16 +381,22 @@ QVector<ObjectType> buildTypes()
     }
     {
         using T = QXmppPubSubSubscription;
-        r << makeType<T>("QXmppPubSubSubscription", {
-            F_STR(T, "jid", setJid, jid), F_STR(T, "node", setNode, node), F_STR(T, "subId", setSubId, subId), F_DT(T, "expiry", setExpiry, expiry),
+        // written without a namespace of its own; which attributes apply depends on the parent:
+        // <subscribe-options/> inside <pubsub/>, expiry inside <event/>
+        r << makeType<T>("QXmppPubSubSubscription[pubsub]", {
+            F_STR(T, "jid", setJid, jid), F_STR(T, "node", setNode, node), F_STR(T, "subId", setSubId, subId),
             F_ENUM(T, "state", QXmppPubSubSubscription::State, 0, 5, setState, state), F_ENUM(T, "configurationSupport", QXmppPubSubSubscription::ConfigurationSupport, 0, 3, setConfigurationSupport, configurationSupport),
-        });
+        }, [](T &o) { o.setJid("juliet@capulet.example"); }, QStringLiteral("http://jabber.org/protocol/pubsub"));
+        r << makeType<T>("QXmppPubSubSubscription[event]", {
+            F_STR(T, "jid", setJid, jid), F_STR(T, "node", setNode, node), F_STR(T, "subId", setSubId, subId), F_DT(T, "expiry", setExpiry, expiry),
+            F_ENUM(T, "state", QXmppPubSubSubscription::State, 0, 5, setState, state),
+        }, [](T &o) { o.setJid("juliet@capulet.example"); }, QStringLiteral("http://jabber.org/protocol/pubsub#event"));
     }
     {
         using T = QXmppMessageReaction;
         r << makeType<T>("QXmppMessageReaction", {
             F_STR(T, "messageId", setMessageId, messageId),
-            F_CUSTOM(T, "emojis", "strlist", SETL({ o.setEmojis({ plain ? v.plain : v.str, QStringLiteral("x") }); }), GETL(return QStringList(o.emojis().toList()).join(QChar(0x1f)))),
+            F_CUSTOM(T, "emojis", "strlist", SETL({ o.setEmojis({ plain ? v.plain : v.str, QStringLiteral("x") }); }), GETL(auto em = QStringList(o.emojis().toList()); em.sort(); return em.join(QChar(0x1f)))),
         });
     }
     {
@@ -422,6 +443,144 @@ QVector<ObjectType> buildTypes()
                                                  if (v.idx % 4) f.fast = FastFeature { { plain ? v.plain : v.str }, bool(v.idx % 2) }; o.setSasl2Feature(f); }), GETL({ auto f = o.sasl2Feature(); if (!f) return QStringLiteral("(none)"); QStringList l = f->mechanisms; l << qxvfields::b2s(f->streamResumptionAvailable); if (f->bind2Feature) for (const auto &x : f->bind2Feature->features) l << "b:" + x;
                        if (f->fast) { for (const auto &x : f->fast->mechanisms) l << "f:" + x; l << qxvfields::b2s(f->fast->tls0rtt); } return l.join(QChar(0x1f)); })),
         });
+    }
+
+    // ---- pubsub items and further extension elements ------------------------------------------
+    {
+        using T = QXmppPubSubBaseItem;
+        r << makeType<T>("QXmppPubSubBaseItem", { F_STR(T, "id", setId, id), F_STR(T, "publisher", setPublisher, publisher) });
+    }
+    {
+        using T = QXmppTuneItem;
+        r << makeType<T>("QXmppTuneItem", {
+            F_STR(T, "id", setId, id), F_STR(T, "artist", setArtist, artist), F_STR(T, "source", setSource, source), F_STR(T, "title", setTitle, title), F_STR(T, "track", setTrack, track),
+            F_CUSTOM(T, "length", "int:quint16", SETL(auto b = qxvfields::intBounds<quint16>(); o.setLength(b[v.idx % b.size()])), GETL(return o.length() ? QString::number(*o.length()) : QStringLiteral("(none)"))),
+            F_CUSTOM(T, "rating", "int:1..10", SETL(o.setRating(quint8(1 + v.idx % 10))), GETL(return o.rating() ? QString::number(*o.rating()) : QStringLiteral("(none)"))),
+        });
+    }
+    {
+        using T = QXmppGeolocItem;
+        r << makeType<T>("QXmppGeolocItem", {
+            F_STR(T, "id", setId, id), F_STR(T, "country", setCountry, country), F_STR(T, "locality", setLocality, locality),
+            F_CUSTOM(T, "latitude", "double", SETL(static const double t[] = { 0.0, 48.25, -89.5, 90.0, -90.0, 12.125 }; o.setLatitude(t[v.idx % 6])), GETL(return o.latitude() ? QString::number(*o.latitude(), 'g', 12) : QStringLiteral("(none)"))),
+            F_CUSTOM(T, "longitude", "double", SETL(static const double t[] = { 0.0, 11.5, -179.5, 180.0, -180.0, 7.0625 }; o.setLongitude(t[v.idx % 6])), GETL(return o.longitude() ? QString::number(*o.longitude(), 'g', 12) : QStringLiteral("(none)"))),
+            F_CUSTOM(T, "accuracy", "double", SETL(static const double t[] = { 0.0, 1.0, 20.5, 1000.0 }; o.setAccuracy(t[v.idx % 4])), GETL(return o.accuracy() ? QString::number(*o.accuracy(), 'g', 12) : QStringLiteral("(none)"))),
+        });
+    }
+    {
+        using T = QXmppMixInfoItem;
+        r << makeType<T>("QXmppMixInfoItem", {
+            F_STR(T, "id", setId, id), F_STR(T, "name", setName, name), F_STR(T, "description", setDescription, description),
+            F_CUSTOM(T, "contactJids", "strlist", SETL(o.setContactJids({ plain ? v.plain : v.str, QStringLiteral("b@example.org") })), GETL(return qxvfields::sl2s(o.contactJids()))),
+        }, [](T &o) { o.setFormType(QXmppDataForm::Result); });
+    }
+    {
+        using T = QXmppMixParticipantItem;
+        r << makeType<T>("QXmppMixParticipantItem", { F_STR(T, "id", setId, id), F_STR(T, "nick", setNick, nick), F_STR(T, "jid", setJid, jid) });
+    }
+    {
+        using T = QXmppOutOfBandUrl;
+        r << makeType<T>("QXmppOutOfBandUrl", {
+            F_STR(T, "url", setUrl, url),
+            F_CUSTOM(T, "description", "str", SETL(o.setDescription(plain ? v.plain : v.str)), GETL(return o.description().value_or(QStringLiteral("(none)")))),
+        }, [](T &o) { o.setUrl("https://example.org/x"); });
+    }
+    {
+        using T = QXmppThumbnail;
+        r << makeType<T>("QXmppThumbnail", {
+            F_STR(T, "uri", setUri, uri),
+            F_CUSTOM(T, "width", "int:uint32", SETL(auto b = qxvfields::intBounds<quint32>(); o.setWidth(b[v.idx % b.size()])), GETL(return o.width() ? QString::number(*o.width()) : QStringLiteral("(none)"))),
+            F_CUSTOM(T, "height", "int:uint32", SETL(auto b = qxvfields::intBounds<quint32>(); o.setHeight(b[v.idx % b.size()])), GETL(return o.height() ? QString::number(*o.height()) : QStringLiteral("(none)"))),
+        }, [](T &o) { o.setUri("cid:sha1+ffd7c8d28e9c5e82afea41f97108c6b4@bob.xmpp.org"); });
+    }
+    {
+        using T = QXmppFileMetadata;
+        r << makeType<T>("QXmppFileMetadata", {
+            F_CUSTOM(T, "lastModified", "datetime", SETL(o.setLastModified(qxvfields::dateTimes()[v.idx % qxvfields::dateTimes().size()])), GETL(return o.lastModified() ? qxvfields::dt2s(*o.lastModified()) : QStringLiteral("(none)"))),
+            F_CUSTOM(T, "description", "str", SETL(o.setDescription(plain ? v.plain : v.str)), GETL(return o.description().value_or(QStringLiteral("(none)")))),
+            F_CUSTOM(T, "filename", "str", SETL(o.setFilename(plain ? v.plain : v.str)), GETL(return o.filename().value_or(QStringLiteral("(none)")))),
+            F_CUSTOM(T, "size", "int:uint64", SETL(auto b = qxvfields::intBounds<quint64>(); o.setSize(b[v.idx % b.size()])), GETL(return o.size() ? QString::number(*o.size()) : QStringLiteral("(none)"))),
+            F_CUSTOM(T, "width", "int:uint32", SETL(auto b = qxvfields::intBounds<quint32>(); o.setWidth(b[v.idx % b.size()])), GETL(return o.width() ? QString::number(*o.width()) : QStringLiteral("(none)"))),
+            F_CUSTOM(T, "height", "int:uint32", SETL(auto b = qxvfields::intBounds<quint32>(); o.setHeight(b[v.idx % b.size()])), GETL(return o.height() ? QString::number(*o.height()) : QStringLiteral("(none)"))),
+            F_CUSTOM(T, "length", "int:uint32", SETL(auto b = qxvfields::intBounds<quint32>(); o.setLength(b[v.idx % b.size()])), GETL(return o.length() ? QString::number(*o.length()) : QStringLiteral("(none)"))),
+            F_CUSTOM(T, "hashes", "enum+bytes", SETL(QXmppHash h; h.setAlgorithm(QXmpp::HashAlgorithm(int(QXmpp::HashAlgorithm::Sha256) + v.idx % 2)); h.setHash(v.str.toUtf8() + QByteArray(1, char(v.idx))); o.setHashes({ h })),
+                     GETL(QStringList l; for (const auto &h : o.hashes()) l << QString::number(int(h.algorithm())) + '|' + qxvfields::bytes2s(h.hash()); return l.join(QChar(0x1f)))),
+        });
+    }
+    {
+        using T = QXmppBookmarkSet;
+        r << makeType<T>("QXmppBookmarkSet", {
+            F_CUSTOM(T, "conference", "str+bool", SETL(QXmppBookmarkConference c; c.setJid(plain ? v.plain : v.str); c.setName(plain ? v.plain : v.str); c.setNickName(plain ? v.plain : v.str); c.setAutoJoin(v.idx % 2); o.setConferences({ c })),
+                     GETL(QStringList l; for (const auto &c : o.conferences()) l << c.jid() + '|' + c.name() + '|' + c.nickName() + '|' + qxvfields::b2s(c.autoJoin()); return l.join(QChar(0x1f)))),
+            F_CUSTOM(T, "url", "str", SETL(QXmppBookmarkUrl u; u.setName(plain ? v.plain : v.str); u.setUrl(QUrl(QStringLiteral("https://example.org/%1").arg(v.idx))); o.setUrls({ u })),
+                     GETL(QStringList l; for (const auto &u : o.urls()) l << u.name() + '|' + u.url().toString(); return l.join(QChar(0x1f)))),
+        });
+    }
+    {
+        using T = QXmppSdpParameter;
+        r << makeType<T>("QXmppSdpParameter", { F_STR(T, "name", setName, name), F_STR(T, "value", setValue, value) }, [](T &o) { o.setName("n"); });
+    }
+    {
+        using T = QXmppJingleRtpCryptoElement;
+        r << makeType<T>("QXmppJingleRtpCryptoElement", {
+            F_INT(T, "tag", quint32, setTag, tag), F_STR(T, "cryptoSuite", setCryptoSuite, cryptoSuite), F_STR(T, "keyParams", setKeyParams, keyParams), F_STR(T, "sessionParams", setSessionParams, sessionParams),
+        }, [](T &o) { o.setCryptoSuite("AES_CM_128_HMAC_SHA1_80"); o.setKeyParams("inline:x"); });
+    }
+    {
+        using T = QXmppJingleRtpFeedbackProperty;
+        r << makeType<T>("QXmppJingleRtpFeedbackProperty", {
+            F_STR(T, "type", setType, type),
+            // "If there are parameters, they must be used instead of the subtype" (toXml)
+            F_CUSTOM(T, "subtypeOrParameters", "str", SETL(if (v.idx % 2) { o.setSubtype(plain ? v.plain : v.str); } else { QXmppSdpParameter p; p.setName(plain ? v.plain : v.str); p.setValue(plain ? v.plain : v.str); o.setParameters({ p }); }),
+                     GETL(QStringList l { o.subtype() }; for (const auto &p : o.parameters()) l << p.name() + '=' + p.value(); return l.join(QChar(0x1f)))),
+        }, [](T &o) { o.setType("nack"); });
+    }
+    {
+        using T = QXmppJingleRtpFeedbackInterval;
+        r << makeType<T>("QXmppJingleRtpFeedbackInterval", { F_INT(T, "value", quint64, setValue, value) });
+    }
+    {
+        using T = QXmppJingleRtpHeaderExtensionProperty;
+        r << makeType<T>("QXmppJingleRtpHeaderExtensionProperty", {
+            F_INT(T, "id", quint32, setId, id), F_STR(T, "uri", setUri, uri), F_ENUM(T, "senders", QXmppJingleRtpHeaderExtensionProperty::Senders, 0, 3, setSenders, senders),
+            F_CUSTOM(T, "parameters", "str", SETL(QXmppSdpParameter p; p.setName(plain ? v.plain : v.str); p.setValue(plain ? v.plain : v.str); o.setParameters({ p })),
+                     GETL(QStringList l; for (const auto &p : o.parameters()) l << p.name() + '=' + p.value(); return l.join(QChar(0x1f)))),
+        }, [](T &o) { o.setUri("urn:ietf:params:rtp-hdrext:toffset"); });
+    }
+    {
+        using T = QXmppJingleMessageInitiationElement;
+        r << makeType<T>("QXmppJingleMessageInitiationElement", {
+            F_STR(T, "id", setId, id), F_ENUM(T, "type", QXmppJingleMessageInitiationElement::Type, 1, 6, setType, type),
+        }, [](T &o) { o.setType(QXmppJingleMessageInitiationElement::Type::Ringing); o.setId("a73sjjvkla37jfea"); });
+    }
+    {
+        using T = QXmppCallInviteElement;
+        r << makeType<T>("QXmppCallInviteElement", {
+            F_STR(T, "id", setId, id), F_ENUM(T, "type", QXmppCallInviteElement::Type, 2, 3, setType, type),
+        }, [](T &o) { o.setType(QXmppCallInviteElement::Type::Accept); o.setId("id1"); });
+        r << makeType<T>("QXmppCallInviteElement[invite]", {
+            F_BOOL(T, "audio", setAudio, audio), F_BOOL(T, "video", setVideo, video),
+            F_CUSTOM(T, "jingle", "str", SETL(QXmppCallInviteElement::Jingle j; j.sid = plain ? v.plain : v.str; if (v.idx % 2) { j.jid = plain ? v.plain : v.str; } o.setJingle(j)),
+                     GETL(auto j = o.jingle(); return j ? j->sid + '|' + j->jid.value_or(QStringLiteral("(none)")) : QStringLiteral("(none)"))),
+            F_CUSTOM(T, "external", "str", SETL(QXmppCallInviteElement::External e; e.uri = plain ? v.plain : v.str; o.setExternal(QVector<QXmppCallInviteElement::External> { e })),
+                     GETL(auto e = o.external(); if (!e) return QStringLiteral("(none)"); QStringList l; for (const auto &x : *e) l << x.uri; return l.join(QChar(0x1f)))),
+        }, [](T &o) { o.setType(QXmppCallInviteElement::Type::Invite); });
+    }
+    {
+        using T = QXmppDialback;
+        r << makeType<T>("QXmppDialback", {
+            F_STR(T, "to", setTo, to), F_STR(T, "from", setFrom, from), F_STR(T, "id", setId, id), F_ENUM(T, "command", QXmppDialback::Command, 0, 2, setCommand, command),
+            F_STR(T, "key", setKey, key), F_STR(T, "type", setType, type),
+        });
+    }
+    {
+        using T = QXmppArchiveChatIq;
+        r << makeType<T>("QXmppArchiveChatIq", {
+            F_STR(T, "id", setId, id),
+            F_CUSTOM(T, "chat", "str+datetime", SETL(QXmppArchiveChat c; c.setWith(plain ? v.plain : v.str); c.setSubject(plain ? v.plain : v.str); c.setThread(plain ? v.plain : v.str); c.setStart(qxvfields::dateTimes()[v.idx % 10]); c.setVersion(v.idx);
+                                                     QXmppArchiveMessage m; m.setBody(plain ? v.plain : v.str); m.setDate(qxvfields::dateTimes()[v.idx % 10].addSecs(60)); m.setReceived(v.idx % 2); c.setMessages({ m }); o.setChat(c)),
+                     GETL(auto c = o.chat(); QStringList l { c.with(), c.subject(), c.thread(), qxvfields::dt2s(c.start()), QString::number(c.version()) }; for (const auto &m : c.messages()) l << m.body() + '|' + qxvfields::dt2s(m.date()) + '|' + qxvfields::b2s(m.isReceived()); return l.join(QChar(0x1f)))),
+        }, [](T &o) { o.setType(QXmppIq::Result); });
     }
 
     // ---- private nonzas: aggregates with public members -----------------------------------
@@ -509,7 +668,7 @@ QVector<ObjectType> buildTypes()
         using T = Sasl2::UserAgent;
         r << makeType<T>("Sasl2::UserAgent", {
             F_CUSTOM(T, "id", "uuid", SETL({ o.id = QUuid::createUuidV5(QUuid(), v.str + QString::number(v.idx)); }), GETL(return o.id.toString())),
-            M_STR(T, software), M_STR(T, device) });
+            M_STR(T, software), M_STR(T, device) }, {}, QStringLiteral("urn:xmpp:sasl:2"));
     }
     {
         using T = Sasl2::Authenticate;
@@ -552,7 +711,7 @@ QVector<ObjectType> buildTypes()
         r << makeType<T>("Sasl2::Continue", {
             M_BYTES(T, additionalData),
             F_CUSTOM(T, "tasks", "strlist", SETL({ o.tasks = { plain ? v.plain : v.str, QStringLiteral("TOTP-EXAMPLE") }; }), GETL({ QStringList l; for (const auto &f : o.tasks) l << f; return l.join(QChar(0x1f)); })),
-            M_STR(T, text) });
+            M_STR(T, text) }, [](T &o) { o.tasks = { QStringLiteral("HOTP-EXAMPLE") }; });
     }
     {
         using T = Sasl2::Abort;
